@@ -50,6 +50,8 @@ type Result struct {
 	Assumptions []string            `json:"assumptions"`
 	Extra       map[string]any      `json:"extra"`
 	Completed   bool                `json:"completed"`
+	// OutcomeNames: the first distinct outcomes of this shard written out (at most 200)
+	OutcomeNames []string `json:"outcome_names"`
 }
 
 // Run is the per-test-binary handle.
@@ -227,7 +229,20 @@ func (r *Run) State(key string) bool { return r.Add("states", Hash(key)) }
 func (r *Run) Nontrivial(key string) bool { return r.Add("nontrivial", Hash(key)) }
 
 // Outcome records a distinct observed outcome.
-func (r *Run) Outcome(key string) bool { return r.Add("outcomes", Hash(key)) }
+func (r *Run) Outcome(key string) bool {
+	isNew := r.Add("outcomes", Hash(key))
+	if isNew {
+		r.mu.Lock()
+		if len(r.res.OutcomeNames) < 200 {
+			if len(key) > 300 {
+				key = key[:300] + "…"
+			}
+			r.res.OutcomeNames = append(r.res.OutcomeNames, key)
+		}
+		r.mu.Unlock()
+	}
+	return isNew
+}
 
 // NontrivialByConstruction counts n non-trivial cases that are distinct because
 // the enumeration visits every element of the space exactly once.
